@@ -129,6 +129,12 @@ func modelProperty(id string, st *Stats, f Features, checkVars bool) func(t *rap
 			if mr.Rebinds > 0 {
 				st.Count("rebinding")
 			}
+			for _, sp := range mr.Spans {
+				if len(sp.Nested) > 0 {
+					st.Count("named_loop_variables")
+					break
+				}
+			}
 		} else {
 			nontrivial = len(mr.Spans) > 0 && mr.Backtracks > 0
 		}
@@ -181,5 +187,6 @@ func TestC02(t *testing.T) {
 	defer st.Write()
 	f := AllModelFeatures
 	f.CapBias = true
+	f.NamedLoops = true
 	rapid.Check(t, modelProperty("C02", st, f, true))
 }
